@@ -444,7 +444,7 @@ class XMLReader(object):
                     # Special handling of values;
                     curr_text = node.text.strip() if node.text else None
                     if tag == "values" and curr_text:
-                        content = from_csv(node.text)
+                        content = from_csv(curr_text)
                         arguments[tag] = content
                     # Special handling of cardinality
                     elif tag.endswith("_cardinality") and curr_text:
